@@ -247,6 +247,25 @@ def check(case) -> Result:
                         res.fail("selection|api-mismatch", f"{where}: choice {key}: selection {isel} but member(s) {ys} are y")
                         return res
                     if isel != msel:
+                        # Is it the selection RULE that was broken, or does the reference model merely disagree about the
+                        # value of an option mentioned in a default's condition (C01's subject - e.g. members of a choice
+                        # continued at a second location, whose visibility the documentation does not define)?  The rule
+                        # is re-applied with the implementation's own truth values of the conditions.
+                        exp = None
+                        if pick is not None and member_vis.get(pick, 0):
+                            exp = pick
+                        else:
+                            for dsym, dcond in ch.defaults:
+                                if kc.core.expr_value(dcond) and dsym.visibility:
+                                    exp = dsym.name
+                                    break
+                            else:
+                                vis_members = [s_.name for s_ in ch.syms if s_.visibility]
+                                exp = vis_members[0] if vis_members else None
+                        if isel == exp:
+                            res.label("default-condition-disagreement(C01)")
+                            res.abstained += 1
+                            continue
                         rule = "pick" if (pick is not None and member_vis.get(pick, 0)) else "default-or-first"
                         res.fail(
                             f"selection|wrong-member|{rule}",
